@@ -82,13 +82,17 @@ def step (op implObs : String) : String × List String × List String :=
     let t := torrentOf toks
     let ev := kvNat toks "ev"
     let nw := kvInt toks "nw"
-    let tid := if kvStr toks "tid" = "-" then "" else kvStr toks "tid"
+    -- tid=<text> (URL-safe characters) or tidx=<hex> (any bytes)
+    let tid : Bytes := if kvStr toks "tidx" ≠ "" then unhex! (kvStr toks "tidx")
+      else if kvStr toks "tid" = "-" then [] else (kvStr toks "tid").toUTF8.toList.map (·.toNat)
     let model := (if kvStr toks "base" = "q" then "passkey=abc&" else "") ++ renderQuery (httpQuery t ev nw tid)
     let viol :=
-      if implObs.startsWith "error:" then [s!"C15 http-announce-failed {implObs}"] else
+      if implObs.startsWith "error:" then [s!"C15 http-announce-failed {implObs}"] ++
+        -- C16: a tracker that answers keeps being used — also after it has handed out a tracker id, whatever its bytes
+        (if tid ≠ [] then [s!"C16 announce-fails-after-tracker-id {implObs}"] else []) else
       let mm := httpMismatch t ev nw implObs
       if mm.isEmpty then [] else [s!"C15 http-identity-mismatch fields={",".intercalate mm}"]
-    let tags := ["branch:http", "nontrivial"] ++ (if tid ≠ "" then ["branch:trackerid"] else []) ++
+    let tags := ["branch:http", "nontrivial"] ++ (if tid ≠ [] then ["branch:trackerid"] else []) ++ (if kvStr toks "tidx" ≠ "" then ["branch:trackerid-any-bytes"] else []) ++
       (if ev = 0 then ["branch:no-event"] else [])
     (model, viol, tags)
   | _ => ("bad-op", [], [])
